@@ -6,6 +6,6 @@ CONSTANTS
   Opts <- AllOpts
   MaxSet = 1
   Variant = "as_shipped"
-  Fixed = {}
+  Fixed = {"D1", "D4"}
 INVARIANTS TypeOK C35_PrintedFileAccepted C35_RoundTrip
 CHECK_DEADLOCK FALSE
